@@ -245,15 +245,104 @@ fn http_config(max_peers: usize, max_scrape_torrents: usize, v4: bool, default_c
     (cases, f, format!("served; largest scrape answered: {} hashes", largest_answered))
 }
 
+/// WebTorrent tracker: the largest messages a configuration makes the tracker send - a forwarded offer and answer as large
+/// as websocket_max_message_size admits, a scrape reply for max_scrape_torrents torrents per swarm worker with identifiers
+/// that take six JSON bytes per character - must arrive whole, whatever websocket_write_buffer_size is.
+fn ws_config(write_buffer: usize, max_message: usize, max_scrape: usize, swarm_workers: u8) -> (u64, Vec<Finding>, String) {
+    use crate::props::c17::send_fragmented;
+    let label = format!("ws websocket_write_buffer_size={} websocket_max_message_size={} max_scrape_torrents={} swarm_workers={}", write_buffer, max_message, max_scrape, swarm_workers);
+    let cfg = json!({"socket_workers": 1, "swarm_workers": swarm_workers, "network": {"address": "127.0.0.1:PORT", "websocket_write_buffer_size": write_buffer, "websocket_max_message_size": max_message}, "protocol": {"max_scrape_torrents": max_scrape}, "cleaning": {"max_peer_age": 100000, "max_offer_age": 100000, "torrent_cleaning_interval": 100000, "max_connection_idle": 100000}});
+    let mut t = TrackerChild::spawn("ws", cfg, &[]);
+    if !t.wait_ready(60) {
+        return (0, vec![], format!("refused: {}", t.line_with_wait("RUN-RETURNED", 500).unwrap_or_default()));
+    }
+    let addr = SocketAddr::new(IpAddr::V4(Ipv4Addr::LOCALHOST), t.port);
+    let mut fs = Vec::new();
+    let mut cases = 0;
+    let hash = |i: usize, tag: u8| -> String {
+        // control characters only: six JSON bytes per character
+        let mut h = [1u8; 20];
+        h[0] = (i % 31) as u8 + 1;
+        h[1] = ((i / 31) % 31) as u8 + 1;
+        h[2] = (i / 961) as u8 + 1;
+        h[3] = tag;
+        id20(&h)
+    };
+    let pid = |p: u8| id20(&[b'A' + p; 20]);
+    let offer_msg = |sdp: usize| json!({"action": "announce", "info_hash": hash(0, 9), "peer_id": pid(2), "numwant": 1, "left": 1, "offers": [{"offer_id": id20(&[b'o'; 20]), "offer": {"type": "offer", "sdp": "s".repeat(sdp)}}]}).to_string();
+    let answer_msg = |sdp: usize| json!({"action": "announce", "info_hash": hash(0, 9), "peer_id": pid(1), "numwant": 0, "left": 1, "answer": {"type": "answer", "sdp": "t".repeat(sdp)}, "to_peer_id": pid(2), "offer_id": id20(&[b'o'; 20])}).to_string();
+    let overhead = offer_msg(0).len().max(answer_msg(0).len());
+    // the largest SDP whose announce is still accepted, one less, and half of it
+    for sdp in [max_message - overhead, max_message - overhead - 1, (max_message - overhead) / 2] {
+        cases += 1;
+        let (Some(mut a), Some(mut b)) = (WsConn::connect_patiently(addr), WsConn::connect_patiently(addr)) else {
+            machinery_failure(&format!("{}: could not connect", label));
+        };
+        let detail = json!({"configuration": label, "sdp_bytes": sdp});
+        a.send_text(json!({"action": "announce", "info_hash": hash(0, 9), "peer_id": pid(1), "numwant": 0, "left": 1, "event": "started"}).to_string());
+        let _ = a.recv_text(5000);
+        send_fragmented(&mut b, &offer_msg(sdp));
+        let b_reply = b.recv_text(5000).is_some();
+        let offer_ok = a.recv_text(5000).map(|x| x.matches('s').count() >= sdp).unwrap_or(false);
+        a.send_text(json!({"action": "scrape", "info_hash": hash(1, 9)}).to_string());
+        let a_alive = a.recv_text(5000).is_some();
+        if !b_reply || !offer_ok || !a_alive {
+            fs.push(Finding { sig: "ws/largest-offer-not-delivered".into(), what: format!("[{}] announce of {} bytes (the largest accepted) with one offer: sender answered: {}, offer delivered whole: {}, receiver's connection usable: {}", label, offer_msg(sdp).len(), b_reply, offer_ok, a_alive), detail });
+            continue;
+        }
+        send_fragmented(&mut a, &answer_msg(sdp));
+        let mut answer_ok = false;
+        for _ in 0..2 {
+            if let Some(x) = b.recv_text(5000) {
+                if x.contains("\"answer\"") && x.matches('t').count() >= sdp {
+                    answer_ok = true;
+                    break;
+                }
+            }
+        }
+        b.send_text(json!({"action": "scrape", "info_hash": hash(1, 9)}).to_string());
+        let b_alive = b.recv_text(5000).is_some();
+        if !answer_ok || !b_alive {
+            fs.push(Finding { sig: "ws/largest-answer-not-delivered".into(), what: format!("[{}] answer of {} SDP bytes: delivered whole: {}, offerer's connection usable: {}", label, sdp, answer_ok, b_alive), detail });
+        }
+    }
+    // scrape: as many torrents as the limit and the request size admit, every one with a peer
+    let per_hash_in_request = 20 * 6 + 3;
+    let n = max_scrape.min((max_message - 64) / per_hash_in_request);
+    if n >= 1 {
+        cases += 1;
+        let Some(mut c) = WsConn::connect_patiently(addr) else {
+            machinery_failure(&format!("{}: could not connect", label));
+        };
+        let mut hashes = Vec::new();
+        for i in 0..n {
+            hashes.push(hash(i, 3));
+            c.send_text(json!({"action": "announce", "info_hash": hash(i, 3), "peer_id": pid(3), "numwant": 0, "left": 1, "event": "started"}).to_string());
+            let _ = c.recv_text(5000);
+        }
+        let req = json!({"action": "scrape", "info_hash": hashes}).to_string();
+        send_fragmented(&mut c, &req);
+        let r = c.recv_text(8000);
+        let files = r.as_ref().and_then(|x| serde_json::from_str::<serde_json::Value>(x).ok()).and_then(|v| v.get("files").and_then(|f| f.as_object().map(|o| o.len())));
+        c.send_text(json!({"action": "scrape", "info_hash": hash(1, 9)}).to_string());
+        let alive = c.recv_text(5000).is_some();
+        if files != Some(n) || !alive {
+            fs.push(Finding { sig: "ws/largest-scrape-unanswered".into(), what: format!("[{}] scrape of {} torrents that all have a peer (request {} bytes): reply lists {:?} ({} bytes); connection usable afterwards: {}", label, n, req.len(), files, r.map(|x| x.len()).unwrap_or(0), alive), detail: json!({"configuration": label, "scrape_torrents": n}) });
+        }
+    }
+    (cases, fs, "served".into())
+}
+
 pub fn main(args: &Args) -> ! {
     let mut run = Run::new(args, "exploration");
-    run.set("rule", "per tracker, backend and family: configuration values of max_response_peers / max_peers / max_scrape_torrents (quick: 0, 1, the defaults and both sides of every buffer threshold; thorough: every value 0..=600 plus the IPv4 thresholds); for each value the tracker is started through run() or observed to refuse the configuration, the swarm is filled to exactly the limit and to limit+1, and the worst-case accepted request is sent; HTTP scrapes of every hash count the request buffer admits, each paired with a control request of identical length and small reply. A case is one (tracker, backend, family, value, request); distinct_nontrivial = distinct configurations served");
-    run.assume("requests the request path does not accept are out of scope here (C06 / C16); WS limits are not part of this property");
+    run.set("rule", "per tracker, backend and family: configuration values of max_response_peers / max_peers / max_scrape_torrents (quick: 0, 1, the defaults and both sides of every buffer threshold; thorough: every value 0..=600 plus the IPv4 thresholds); for each value the tracker is started through run() or observed to refuse the configuration, the swarm is filled to exactly the limit and to limit+1, and the worst-case accepted request is sent; HTTP scrapes of every hash count the request buffer admits, each paired with a control request of identical length and small reply; WebTorrent: websocket_write_buffer_size x websocket_max_message_size x max_scrape_torrents x swarm workers, the largest accepted offer / answer and the largest scrape each configuration admits. A case is one (tracker, backend, family, value, request); distinct_nontrivial = distinct configurations served");
+    run.assume("requests the request path does not accept are out of scope here (C06 / C16)");
     let th = args.tier.thorough();
     #[derive(Clone)]
     enum Job {
         Udp(bool, usize, u8, bool),
         Http(usize, usize, bool, bool),
+        Ws(usize, usize, usize, u8),
     }
     let mut jobs: Vec<Job> = Vec::new();
     let udp_l: Vec<usize> = if th { (0..=600).chain([1000, 1360, 1361, 1362, 1363, 1364, 5000]).collect() } else { vec![0, 1, 30, 112, 113, 337, 338, 339, 454, 455, 456] };
@@ -290,6 +379,32 @@ pub fn main(args: &Args) -> ! {
         jobs.push(Job::Http(50, s, true, false));
     }
 
+    // WebTorrent: write buffer x message size limit x scrape limit x swarm workers (quick: the defaults and each value on its own)
+    let (wbs, mms, mst) = ([1024usize, 8192, 65536], [16384usize, 65536, 262144], [1usize, 255, 1000]);
+    if th {
+        for w in wbs {
+            for m in mms {
+                for s in mst {
+                    for wm in [1u8, 3] {
+                        jobs.push(Job::Ws(w, m, s, wm));
+                    }
+                }
+            }
+        }
+    } else {
+        jobs.push(Job::Ws(8192, 65536, 255, 1));
+        jobs.push(Job::Ws(8192, 65536, 255, 3));
+        for w in [1024usize, 65536] {
+            jobs.push(Job::Ws(w, 65536, 255, 1));
+        }
+        for m in [16384usize, 262144] {
+            jobs.push(Job::Ws(8192, m, 255, 1));
+        }
+        for s in [1usize, 1000] {
+            jobs.push(Job::Ws(8192, 65536, s, 3));
+        }
+    }
+
     let results: Vec<(u64, Vec<Finding>, String, String)> = par_map(&jobs, num_threads().min(12), |j| match j {
         Job::Udp(u, l, s, v4) => {
             let (c, f, o) = udp_config(*u, *l, *s, *v4);
@@ -298,6 +413,10 @@ pub fn main(args: &Args) -> ! {
         Job::Http(l, s, v4, d) => {
             let (c, f, o) = http_config(*l, *s, *v4, *d);
             (c, f, o, format!("http max_peers={} max_scrape_torrents={} {}{}", l, s, if *v4 { "v4" } else { "v6" }, if *d { " (default config)" } else { "" }))
+        }
+        Job::Ws(w, m, s, wm) => {
+            let (c, f, o) = ws_config(*w, *m, *s, *wm);
+            (c, f, o, format!("ws websocket_write_buffer_size={} websocket_max_message_size={} max_scrape_torrents={} swarm_workers={}", w, m, s, wm))
         }
     });
     let mut cases = 0;
